@@ -8,4 +8,6 @@ for c in "$@"; do
   echo "--- check $c exit=$rc"; grep -E "^(VIOLATION|UNDECIDED|KNOWN-FINDING|C[0-9]+:)" /tmp/seed_run_$c.log | cut -c1-260
 done
 git -C /repo checkout -- .
+# evidence files were rewritten by runs on a modified tree: restore the committed ones (evidence must describe the unchanged tree)
+git -C /verif checkout -- evidence/ 2>/dev/null
 git -C /repo status --short | grep -v "^??" | head -3
